@@ -2,6 +2,7 @@ package main
 
 import (
 	"fmt"
+	"os"
 	"sort"
 	"strings"
 
@@ -312,7 +313,49 @@ func (s stream) header() []string {
 	return append(ops, s.recs...)
 }
 
-func gen(r *prng.R, f proto.Flags, emit func(proto.Case)) {
+// droppedNondet counts generated cases that were NOT emitted because the implementation itself answered them
+// differently in repeated executions (finding F15c: the outcome can depend on Go map iteration order — the order in
+// which ConvergeAggregation re-keys, `nodes[0]` in convergeNodesPaths).  Such a case cannot be compared line by line
+// with a deterministic model; it is reported in stats.json instead of making the check flaky.
+var droppedNondet int
+
+// stable executes the case `reps` more times on the real code and tells whether every execution gave the same answers.
+func stable(c proto.Case, reps int) bool {
+	dir, err := os.MkdirTemp("", "c15-probe-")
+	if err != nil {
+		panic(err)
+	}
+	defer os.RemoveAll(dir)
+	probe := proto.NewOut(dir)
+	var first []string
+	for k := 0; k < reps; k++ {
+		outs := exec(c, probe)
+		for _, a := range outs {
+			if a == "nondet" {
+				return false
+			}
+		}
+		if k == 0 {
+			first = outs
+		} else if strings.Join(first, "\n") != strings.Join(outs, "\n") {
+			return false
+		}
+	}
+	return true
+}
+
+func gen(r *prng.R, f proto.Flags, emitAll func(proto.Case)) {
+	reps := 2
+	if f.Tier == "thorough" {
+		reps = 1
+	}
+	emit := func(c proto.Case) {
+		if stable(c, reps) {
+			emitAll(c)
+		} else {
+			droppedNondet++
+		}
+	}
 	id := 0
 	if f.Tier == "thorough" {
 		// every one of the 2^(n-1) splittings of streams of 8 records, plus restart runs
